@@ -52,6 +52,7 @@ Fixpoint obs_pv (ft : float_tbl) (v : pv) {struct v} : list Z :=
   match v with
   | PNull => [0] | PNone => [1] | PTrue => [2] | PFalse => [3] | PEllipsis => [4] | PStopIter => [5]
   | PInt z => [6; z]
+  | PLong z => [17; z]
   | PFloat b => [7; b]
   | PFloatText s => [7; ft_lookup s ft]
   | PComplex a b => 8 :: tl (obs_pv ft a) ++ tl (obs_pv ft b)
